@@ -245,6 +245,11 @@ ForeignUnits ==
   \cup {[k |-> "ctlv", p |-> [cls |-> "fsresp", p |-> [action |-> act, status |-> 0, n1 |-> n, n2 |-> IF TwoNames(act) THEN m ELSE <<>>,
                                                       msg |-> g]]] :
      act \in {0, 3}, n \in ForeignNames \cup {<<97>>}, m \in {<<98>>, <<255, 254>>}, g \in {<<>>, <<200, 201>>}}
+  \* entity ID TLVs of the widths only a foreign implementation uses (3, 5, 6, 7 octets), alone and as fault location
+  \cup {[k |-> "ctlv", p |-> [cls |-> "entity", p |-> [v |-> Rep(w, 7)]]] : w \in {3, 5, 6, 7}}
+  \cup {[k |-> "pdu", p |-> [kind |-> "eof", cfg |-> c, p |-> [cond |-> 6, checksum |-> <<1, 2, 3, 4>>, size |-> <<9>>,
+                                                              fault |-> << Rep(w, 7) >>]]] :
+          c \in {CfgOf(0, 0, 1, 1, 0, 0), CfgOf(1, 1, 2, 2, 0, 0)}, w \in {3, 5, 6, 7}}
   \cup {[k |-> "pdu", p |-> [kind |-> "finished", cfg |-> c,
                              p |-> [cond |-> 4, delivery |-> 1, status |-> 1,
                                     responses |-> <<[action |-> 0, status |-> 0, n1 |-> n, n2 |-> <<>>, msg |-> <<>>]>> \o more,
